@@ -6,6 +6,7 @@
      le <g> <h> | matches <g> <h> | show <g> | chk <g>   queries, one output line each
    Output of `show` has the format of the Go hook's `Dump`. -/
 import Argot.Model.EGraph
+import Argot.Model.EscCore
 import Std.Data.HashMap
 open Argot.EGraph Argot.EGraph.EGraph
 
@@ -195,6 +196,22 @@ partial def loop (h : IO.FS.Stream) (s : OState) : IO Unit := do
         loop h { s' with regs := s'.regs.insert r (tabulate s'.n res.2) }
       else do bad; loop h s
     | _, _, _, _ => do bad; loop h s
+  | ["fieldaddr", r, g, v, x, f] =>
+    -- FieldAddr: for every pointee p of x: AddEdge(v, FieldSubnode(p, f), internal)
+    match reg g, v.toNat?, x.toNat?, f.toNat? with
+    | some g, some v, some x, some f =>
+      if v < s.n ∧ x < s.n then
+        let res := (pointees g x).foldl (fun (acc : NG × EGraph) p =>
+          let r := fieldSubnode acc.1 acc.2 p f
+          (r.1, addEdge r.1.intr r.2.1 v r.2.2 Flags.internal)) (s.ng, g)
+        let s' := { s with ng := tabNG res.1 }
+        loop h { s' with regs := s'.regs.insert r (tabulate s'.n res.2) }
+      else do bad; loop h s
+    | _, _, _, _ => do bad; loop h s
+  | ["local", g, p] =>
+    match reg g, p.toNat? with
+    | some g, some p => do IO.println s!"local {b01 (Argot.EscCore.derefsAreLocal g p)}"; loop h s
+    | _, _ => do bad; loop h s
   | ["callunknown", r, g, as] =>
     match reg g, (as.splitOn ",").mapM String.toNat? with
     | some g, some as => if as.all (· < s.n) then loop h (put r (callUnknown g as)) else do bad; loop h s
